@@ -66,11 +66,18 @@ pub fn tracking(c: f64, d: f64, r: f64, iv: f64, leap: u16, ref_time: SystemTime
 }
 
 fn ref_time_for_age(age_ns: i64) -> SystemTime {
+    ref_time_for_age_wide(age_ns as i128)
+}
+
+/// ages of any size a SystemTime can express (centuries): seconds and nanoseconds separately
+fn ref_time_for_age_wide(age_ns: i128) -> SystemTime {
     let now = UNIX_EPOCH + Duration::from_secs(BASE_SECS);
+    let mag = age_ns.unsigned_abs();
+    let d = Duration::new((mag / 1_000_000_000) as u64, (mag % 1_000_000_000) as u32);
     if age_ns >= 0 {
-        now - Duration::from_nanos(age_ns as u64)
+        now - d
     } else {
-        now + Duration::from_nanos((-age_ns) as u64)
+        now + d
     }
 }
 
@@ -89,9 +96,13 @@ pub fn cmd_extract(a: &[&str]) -> String {
     }
     let (c, d, r, iv) = (f64_of_hex(a[0]), f64_of_hex(a[1]), f64_of_hex(a[2]), f64_of_hex(a[3]));
     let leap: u16 = a[4].parse().unwrap_or(0);
-    let age_ns: i64 = a[5].parse().unwrap_or(0);
+    let age_ns: i128 = a[5].parse().unwrap_or(0);
     let ref_id: u32 = a.get(6).and_then(|x| x.parse().ok()).unwrap_or(0);
-    let t = tracking(c, d, r, iv, leap, ref_time_for_age(age_ns), ref_id);
+    let mut t = tracking(c, d, r, iv, leap, ref_time_for_age_wide(age_ns), ref_id);
+    // optional 8th value: chrony's last_offset field (hex f64), a field the bound must not depend on
+    if let Some(lo) = a.get(7) {
+        t.last_offset = ChronyFloat::from(f64_of_hex(lo));
+    }
     let seen = (
         f64::from(t.current_correction),
         f64::from(t.root_delay),
@@ -267,6 +278,10 @@ pub fn cmd_poller(a: &[&str]) -> String {
     if let Some(v) = a[5].strip_prefix("ok:") {
         std::fs::write(&path, format!("{}\n", v)).ok();
     }
+    if a[5] == "dir" {
+        // the attribute opens but every read fails (EISDIR), as a sysfs attribute whose driver returns an error on read
+        std::fs::create_dir_all(&path).ok();
+    }
     let phc_info = if cfg { Some(PhcInfo { refid: cfg_refid, sysfs_error_bound_path: std::path::PathBuf::from(&path) }) } else { None };
     let (mut mbox, dbox) = new_channel_web(vec![ChannelId::ClockErrorBoundPoller, ChannelId::ShmWriter]);
     let shm_mailbox = mbox.get_mailbox(&ChannelId::ShmWriter).unwrap();
@@ -296,6 +311,7 @@ pub fn cmd_poller(a: &[&str]) -> String {
     let res = std::panic::catch_unwind(std::panic::AssertUnwindSafe(|| vp::run_poller(ctx, ops, phc_info, Duration::from_millis(1))));
     let clock_reads = clock_off();
     let _ = std::fs::remove_file(&path);
+    let _ = std::fs::remove_dir(&path);
     let mut msgs = Vec::new();
     while let Ok(m) = shm_mailbox.try_recv() {
         msgs.push(match m {
